@@ -148,6 +148,7 @@ impl From<Appointment> for msgs::Appointment {
 /// Computes the number of slots an appointment takes from a user subscription.
 ///
 /// This is based on the [encrypted_blob](Appointment::encrypted_blob) size and the slot size that was defined by the [Gatekeeper](crate::gatekeeper::Gatekeeper).
+/// An appointment never takes less than one slot, no matter how small (or empty) its blob is.
 pub fn compute_appointment_slots(blob_size: usize, blob_max_size: usize) -> u32 {
-    (blob_size as f32 / blob_max_size as f32).ceil() as u32
+    ((blob_size as f32 / blob_max_size as f32).ceil() as u32).max(1)
 }
